@@ -616,6 +616,13 @@ func (ex *Exec) doIf(st *State, fr *Frame, x *ssa.If) {
 	if ex.tryMergeChain(st, fr, x, c) {
 		return
 	}
+	if handled, c2 := ex.splitByteConj(st, fr, c,
+		func(s2 *State, f2 *Frame) { ex.jump(f2, f2.block.Succs[0]) },
+		func(s2 *State, f2 *Frame) { ex.jump(f2, f2.block.Succs[1]) }); handled {
+		return
+	} else {
+		c = c2
+	}
 	ex.branches++
 	canT, canF, mT, mF := ex.feasible(st, c)
 	if fr.symBr == nil {
